@@ -250,11 +250,12 @@ def acceptBlock (s : NState) (b : Block) : NState × Outcome :=
     else if parent.id == s.tip.id then extendTip s b
     else sideOrReorg { s with known := b :: s.known } b
 
-/-- one waiting orphan: out of the pool, through `maybeAcceptBlock` -/
+/-- one waiting orphan through `maybeAcceptBlock`; it leaves the orphan pool only when that succeeds -/
 def orphanStep (acc : NState × Bool × List Nat) (o : Block) : NState × Bool × List Nat :=
   if acc.2.1 then
-    let r := acceptBlock { acc.1 with orphans := acc.1.orphans.filter (·.id != o.id) } o
-    if r.2 == .err then (r.1, false, acc.2.2) else (r.1, true, acc.2.2 ++ [o.id])
+    let r := acceptBlock acc.1 o
+    if r.2 == .err then (r.1, false, acc.2.2)
+    else ({ r.1 with orphans := r.1.orphans.filter (·.id != o.id) }, true, acc.2.2 ++ [o.id])
   else acc
 
 /-- `ProcessOrphans`: accept the orphans that wait for `id`, breadth first; an error stops it -/
